@@ -23,7 +23,7 @@ LEVEL = "model_checking"
 XSS = "1g"
 
 
-def judge_contours(ctx, vc, cases, label, base_id=0):
+def judge_contours(ctx, vc, cases, label, base_id=0, key_suffix=""):
     recs, kept = [], []
     empty = 0
     for i, case in enumerate(cases):
@@ -50,7 +50,7 @@ def judge_contours(ctx, vc, cases, label, base_id=0):
         multi += 1 if info["nsets"] > 1 else 0
         ctx.case(H.case_key(case), nontrivial)
         for clause in failing.get(rec["id"], []):
-            ctx.violation(clause, H.case_key(case),
+            ctx.violation(clause, H.case_key(case) + key_suffix,
                           f"shape={info['shape']} deltas={info['deltas']} cells_in={info['n_in']} "
                           f"returned_sets={info['sets']} isarray={info['isarray']} warned={info['warned']} "
                           f"exc={rec['exc']!r}", replay=case)
@@ -61,6 +61,24 @@ def judge_contours(ctx, vc, cases, label, base_id=0):
     ctx.notes["boundary_cells_judged"] = ctx.notes.get("boundary_cells_judged", 0) + sum(
         sum(len(s) for s in r.get("sets", [])) for r in recs)
     return kept
+
+
+def overlapping_boxes(rec):
+    """do the axis-parallel bounding boxes of two returned coordinate sets overlap? (bookkeeping only)"""
+    if rec.get("exc") or len(rec.get("sets", [])) < 2:
+        return False
+    shape = rec["shape"]
+    boxes = []
+    for s_ in rec["sets"]:
+        if not s_:
+            continue
+        idx = np.array(np.unravel_index(np.array(s_) - 1, shape))
+        boxes.append((idx.min(axis=1), idx.max(axis=1)))
+    for i in range(len(boxes)):
+        for j in range(i + 1, len(boxes)):
+            if np.all(boxes[i][0] <= boxes[j][1]) and np.all(boxes[j][0] <= boxes[i][1]):
+                return True
+    return False
 
 
 def sorter_cases(ctx):
@@ -163,7 +181,9 @@ def run(ctx):
     ctx.rule = (
         "contours: the configuration classes enumerated by TLC (spec/HDCGen.tla), instantiated as in C02 (quick: 60 "
         "classes + 1 default-deltas contour; thorough: every fit/cut class, every 4th small class + big grids), several classes designed to cut "
-        "the region into pieces (coarse grid + narrow conditionals) or to be anisotropic (cell-size ratio 3, 10); "
+        "the region into pieces (coarse grid + narrow conditionals) or to be anisotropic (cell-size ratio 3, 10), "
+        "10 / 60 bi-modal models (U-shaped beta conditional moving with the given: tilted parallel bands whose bounding "
+        "boxes overlap, 2-D and 3-D), the cheap contours a second time in reverse order; "
         "sorter: regular circles, irregularly spaced ellipses, clusters, boundary cells of an ellipse on stretched "
         "grids, clouds, lattice sets with tied distances, the TLC counter-example, each with search_for_optimal_start "
         "False/True.  distinct = distinct (model, alpha, limits, deltas) resp. distinct point set+option; non-trivial "
@@ -190,6 +210,8 @@ def run(ctx):
     ctx.model_check("HDC", "MC_HDC_mut_cross.cfg", expect_violation="CoordsAreBoundary")
     ctx.model_check("LineSort", "MC_LineSort_quick.cfg", must_cover=("Build", "Visit", "Exhausted"), timeout=3000)
     if not ctx.quick:
+        ctx.model_check("LineSort", "MC_LineSort_anystart.cfg", must_cover=("Build", "Visit", "Exhausted"),
+                        timeout=3000)
         ctx.model_check("LineSort", "MC_LineSort_thorough7.cfg", must_cover=("Build", "Visit", "Exhausted"),
                         timeout=3000)
         ctx.model_check("LineSort", "MC_LineSort_thorough.cfg", timeout=3000)   # 5 x 5 lattice, start at node 0
@@ -199,8 +221,16 @@ def run(ctx):
     ctx.notes["configuration_classes"] = len(cfgs)
     cases = contour_cases(ctx, vc, cfgs, seed_shift=15, grids=GRID_MIX_C15, n_quick=60, fit_twice=False)
     cases += H.tiny_region_cases()
+    # bi-modal conditionals (U-shaped beta moving with the given): tilted parallel bands whose
+    # bounding boxes overlap
+    cases += H.band_cases(np.random.default_rng(ctx.seed * 17 + 3), ctx.pick(10, 60))
     # V
     kept = judge_contours(ctx, vc, cases, "contours")
+    again = [c for c, r, i in reversed(kept) if not r["exc"] and i["n"] <= 4000][: ctx.pick(25, 200)]
+    judge_contours(ctx, vc, again, "second evaluation in reverse order", base_id=250000,
+                   key_suffix=" second-evaluation")
+    ctx.notes["second_evaluations"] = len(again)
+    ctx.notes["contours_with_overlapping_piece_boxes"] = sum(1 for _, r, _ in kept if overlapping_boxes(r))
     scases = sorter_cases(ctx)
     srecs = judge_sorter(ctx, vc, scases, "line sorter")
     self_test(ctx)
